@@ -16,6 +16,14 @@ VOCAB = ["proto", "import", "option", "type", "const", "enum", "message", "typed
          "9" * 4400, "uint" + "9" * 4400]
 
 
+KEYWORDS = {"proto", "import", "option", "type", "typedef", "const", "enum", "message", "bool", "byte", "true",
+            "false", "yes", "no", "bitproto"}
+ODD_IDENTS = ["_", "__", "___", "a__b", "A__B", "Ab__Cd", "x_", "X_", "_x", "_X", "__x", "x__", "_1", "a_1_", "A1_", "a_b_",
+              "_A_b", "aB", "ABc", "a1b2", "I", "l", "O0", "Z" * 300, "z_" * 100, "int", "uint", "Int8", "uint8_t",
+              "struct", "class", "def", "func", "None", "self", "import_", "go", "nil", "NULL", "return"]
+ODD_PREFIXES = ["my_", "_", "__", "x__", "X_", "my", "9", "a-b", "", " ", "é", "a b", "_my_"]
+
+
 def sig(what):
     out = []
     if what.startswith("IndexError@compiler/bitproto/renderer/impls/py/formatter.py:format_default_value_enum"):
@@ -30,11 +38,25 @@ def text_mutants(text, rng, n):
         t = text
         for _ in range(rng.choice([1, 1, 1, 2, 3])):
             op = rng.choice(["del-char", "ins-char", "rep-token", "ins-token", "dup-line", "swap-lines", "truncate",
-                             "del-line", "del-token"])
+                             "del-line", "del-token", "odd-ident", "odd-ident", "name-prefix"])
             if not t:
                 t = rng.choice(VOCAB)
                 continue
-            if op == "del-char":
+            if op == "odd-ident":
+                # every occurrence of one identifier becomes an unusual (but lexically valid) one: the schema
+                # mostly stays valid, and the renderers' and the linter's name handling sees the odd spelling
+                import re as _re
+                ids = sorted(set(_re.findall(r"[A-Za-z_][A-Za-z0-9_]*", t)) - KEYWORDS)
+                if ids:
+                    old_id = rng.choice(ids)
+                    new_id = rng.choice(ODD_IDENTS)
+                    t = _re.sub(r"(?<![A-Za-z0-9_])%s(?![A-Za-z0-9_])" % _re.escape(old_id), new_id, t)
+            elif op == "name-prefix":
+                ls = t.split("\n")
+                at = [i for i, l in enumerate(ls) if l.strip().startswith("proto ")]
+                ls.insert((at[0] + 1) if at else 0, 'option c.name_prefix = "%s"' % rng.choice(ODD_PREFIXES))
+                t = "\n".join(ls)
+            elif op == "del-char":
                 i = rng.randrange(len(t))
                 t = t[:i] + t[i + 1:]
             elif op == "ins-char":
